@@ -9,8 +9,9 @@ import (
 // ByLines is a sequential reader for a named file, reading lines not including
 // '\n', and it avoids allocations by yielding the underlying buffer slices.
 type ByLines struct {
-	f *os.File
-	b *bufio.Reader
+	f   *os.File
+	b   *bufio.Reader
+	off int64 // file offset consumed so far, skipped empty lines included
 }
 
 // OpenByLines opens the named file fn, and returns a ByLines reader.
@@ -36,12 +37,17 @@ func (b *ByLines) Read() ([]byte, error) {
 		if err != nil {
 			return nil, err
 		}
+		b.off += int64(len(bytes))
 
 		if len(bytes) > 1 {
 			return bytes[:len(bytes)-1], nil // remove the '\n'
 		}
 	}
 }
+
+// Offset is the file offset just after the last line returned by Read,
+// including its '\n' and any empty lines skipped before it.
+func (b *ByLines) Offset() int64 { return b.off }
 
 // Rewind resets the internal state of b, new read will start at the 0 file
 // offset.
@@ -50,5 +56,6 @@ func (b *ByLines) Rewind() error {
 		return err
 	}
 	b.b.Reset(b.f)
+	b.off = 0
 	return nil
 }
